@@ -105,6 +105,13 @@ def dirty(s):
 
 def judge_urlize(text, out, rel, target, limit, escape):
     pieces = parse_anchor_language(out)
+    from markupsafe import Markup as _Mk
+    for p in pieces:
+        for part in ((p[1],) if p[0] == "text" else (p[1], p[3])):
+            # every text piece is the escaping of some text: no bare '&', no broken character reference
+            if str(escape(_Mk(part).unescape())) != part:
+                if True:
+                    return f"{'text' if p[0] == 'text' else 'anchor text / href'} is not properly escaped (bare '&' or a broken character reference): {part[-40:]!r}"
     want_attrs = (f' rel="{escape(rel)}"' if rel else "") + (f' target="{escape(target)}"' if target else "")
     rebuilt = [""]
     for p in pieces:
@@ -126,7 +133,11 @@ def judge_urlize(text, out, rel, target, limit, escape):
                 cands.add(href[8:])
             if href.startswith("mailto:"):
                 cands.add(href[7:])
-            ok_inner = {c for c in cands} | ({c[:limit] + "..." for c in cands} if limit is not None else set())
+            # a trimmed link text is the escaping of the first `limit` characters of the text the target
+            # stands for, followed by "..." (trimming never cuts through an entity)
+            from markupsafe import Markup as _M
+            ok_inner = {c for c in cands} | ({str(escape(_M(c).unescape()[:limit])) + "..." for c in cands
+                                              if len(_M(c).unescape()) > limit} if limit is not None else set())
             if inner not in ok_inner:
                 return "anchor text is neither the link target nor its trimmed form"
             rebuilt = [r + c for r in rebuilt for c in cands][:64]
@@ -241,6 +252,7 @@ def run(ctx):
     keys = [s for s in S if len(s) <= 2 and s] + ["class", "a b", "a/b", "a>b", "a=b", "a\u2003b", "on<x"] \
         + ["class" + c + "onclick" for c in " \t\n\r\x0b\x0c\x1c\x1f\x85\xa0"]
     vals = [("p", "x"), ("p", '"<'), ("m", "<b>"), ("p", "a'b&"), (None, None), ("p", 42)]
+    hostile = hostile_numbers()
     cases = []
     for k in keys:
         for kind, v in vals:
@@ -358,6 +370,37 @@ def run(ctx):
             else:
                 ctx.validated()
 
+    # history of argument kinds on the module-level function: the same rel / target text arrives first as
+    # Markup (trusted) and then as plain str, and the other way round; the plain call must still escape
+    n_hist = 0
+    for t in texts[:6] + ws_texts[:4]:
+        for rel, target in (('no"follow <x>', "_blank"), ("me", '"><script>'), ('a"b', "c'd<")):
+            n_hist += 1
+            for first_kind, second_kind in ((Markup, str), (str, Markup)):
+                tok = f"\u046f{n_hist}{'m' if first_kind is Markup else 's'}"
+                r0, t0 = rel + tok, target + tok
+                case = {"filter": "urlize", "text": t, "rel": r0, "target": t0,
+                        "history": f"{first_kind.__name__} then {second_kind.__name__} with the same text"}
+                ctx.count("urlize_kind_history")
+                ctx.case(key=("urlize_kind_history", t, r0, t0, first_kind.__name__))
+                try:
+                    urlize(t, rel=first_kind(r0), target=first_kind(t0))
+                    out2 = urlize(t, rel=second_kind(r0), target=second_kind(t0))
+                    if second_kind is str:
+                        w = judge_urlize(t, out2, r0, t0, None, escape)
+                    else:
+                        # a Markup rel / target is trusted: it must arrive as it is, not as the escaped
+                        # form computed for the plain call before
+                        want = f' rel="{r0}" target="{t0}"'
+                        w = None if (' rel="' not in out2 or want in out2) else \
+                            f"a Markup rel / target does not arrive unchanged in the anchors: {out2[:90]!r}"
+                except Exception as ex:  # noqa: BLE001
+                    w = f"urlize raised {type(ex).__name__}"
+                if w:
+                    ctx.reject(case, f"after the same rel / target text was passed as {first_kind.__name__}: {w}", None)
+                else:
+                    ctx.validated()
+
     # ---------------- plain arguments next to a safe string
     safe_inputs = [Markup("a\nb"), Markup("x y\n\nz"), Markup("one two three four five six")]
     adv = [s for s in S if s and len(s) <= 2] + ATTACKS[:6]
@@ -447,6 +490,41 @@ class StrSub(str):
     pass
 
 
+class HostileInt(int):
+    """a number whose text is hostile (an int-mixin Enum with a label, a unit-carrying quantity ...)"""
+    def __str__(self):
+        return '"><b>' + int.__repr__(self) + "&'"
+
+    __repr__ = __str__
+
+    def __format__(self, spec):
+        return str(self)
+
+
+class HostileFloat(float):
+    def __str__(self):
+        return "<i>" + float.__repr__(self) + '"'
+
+    __repr__ = __str__
+
+    def __format__(self, spec):
+        return str(self)
+
+
+def hostile_numbers():
+    import enum
+
+    class Level(int, enum.Enum):
+        LOW = 1
+        HIGH = 2
+
+        def __str__(self):
+            return f'<{self.name} "level">'
+
+        __format__ = lambda self, spec: str(self)   # noqa: E731
+    return [HostileInt(3), HostileFloat(2.5), Level.HIGH]
+
+
 def matrix(ctx, jinja2):
     """every enumerated filter through every spelling / entry point / environment (plain and autoescape
     groups) and twice on the same environments; results of the autoescape group that are safe strings are
@@ -491,10 +569,26 @@ def matrix(ctx, jinja2):
             for make in (dict, types.MappingProxyType):
                 for a in ((), (True,), (False,)):
                     mx.apply("C24", "xmlattr", make(dict(d)), a, ("autospace",))
+        for num in hostile_numbers():
+            for f in ("escape", "e", "forceescape", "string"):
+                mx.apply("C24", f, num, (), (), expect=(lambda num=num: escape(str(num))) if f != "string" else None)
+            for make in (dict, types.MappingProxyType):
+                d = {"width": num, "title": "t", "n": 7, "x": 1.5, "b": True}
+                mx.apply("C24", "xmlattr", make(d), (), ("autospace",), fresh_value=lambda d=d, make=make: make(dict(d)),
+                         expect=lambda d=d: " " + " ".join(f'{escape(k)}="{escape(v)}"' for k, v in d.items()))
+            res = mx.apply("C24", "join", [Markup("<i>"), num, "p"], (num,), ("d",), fresh_value=lambda num=num: [Markup("<i>"), num, "p"])
+            judge_auto(res, {"filter": "join", "item": repr(num)}, "<i>")
+            res = mx.apply("C24", "format", Markup("<i>%s</i>"), (num,), ())
+            judge_auto(res, {"filter": "format", "argument": repr(num)}, "<i></i>")
+            res = mx.apply("C24", "replace", Markup("a b"), (" ", num), ("old", "new", "count"))
+            judge_auto(res, {"filter": "replace", "argument": repr(num)}, "")
+            res = mx.apply("C24", "indent", Markup("a\nb"), (num,), ("width",))
+            mx.apply("C24", "urlize", "go www.x.org", (None, False, num, num), ("trim_url_limit", "nofollow", "target", "rel"))
         urls = ["see http://a.example/x?y=1&z=<2> and www.x.org, mail foo@example.com or tel:+1-555\r\nftp://h/p", "<b>www.evil.com</b> \u2028tel:12"]
         for t in urls:
             for K in (str, StrSub):
-                for a in ((), (20,), (None, True), (None, False, "_blank"), (12, True, "_top", "me <x>"), (None, False, None, None, ["tel:", "ftp:"])):
+                for a in ((), (20,), (None, True), (None, False, "_blank"), (12, True, "_top", "me <x>"), (None, False, None, None, ["tel:", "ftp:"]),
+                          (None, False, '_b"><x', 'r"<y \'z')):
                     mx.apply("C24", "urlize", K(t), a, ("trim_url_limit", "nofollow", "target", "rel", "extra_schemes"))
         # plain arguments next to a safe string (judged in the autoescape group)
         for si in (Markup("a\nb c"), Markup("one two three four"), HasHtml("h h")):
@@ -518,6 +612,7 @@ def matrix(ctx, jinja2):
                     res = mx.apply("C24", "format", Markup("<i>%(a)s</i>"), {"a": arg}, ())
                     judge_auto(res, {"filter": "format", "safe_input": chars, "argument": b}, "<i></i>")
         mx.history_pass(every_fresh=5)
+        mx.alternation_pass()
     finally:
         mx.close()
     # configuration history on ONE environment (and an overlay made before the changes): urlize and tojson
